@@ -580,8 +580,16 @@ def pyx_events(src: str) -> dict[str, list[str]]:
             return True
         return any(h not in seen and call([h]).search(body) and seeds(helpers[h], seen + (h,)) for h in helpers)
 
+    PYR = re.compile(r"(?<![\w.])(np|numpy)\.random\.|(?<![\w.])random\.\w+\s*\(|torch\.(rand|manual_seed)|default_rng|RandomState")
+
+    def pydraws(body, seen=()):
+        if PYR.search(body):
+            return True
+        return any(h not in seen and call([h]).search(body) and pydraws(helpers[h], seen + (h,)) for h in helpers)
+
     drawing = [h for h in helpers if draws(helpers[h])]
     seeding = [h for h in helpers if seeds(helpers[h])]
+    pydrawing = [h for h in helpers if pydraws(helpers[h])]
     out = {}
     for kind, name, sig, body in blocks:
         if kind != "def":
@@ -603,6 +611,8 @@ def pyx_events(src: str) -> dict[str, list[str]]:
                     evs.append("srand:seed" if good else "srand:other")
                 elif f in _LIBC_DRAWS or f in drawing:
                     evs.append("rand")
+                if f in pydrawing:
+                    evs.append("pyrand")
             # a Python-level generator used from inside a kernel (numpy / random / torch): never admissible
             if re.search(r"(?<![\w.])(np|numpy)\.random\.|(?<![\w.])random\.\w+\s*\(|torch\.(rand|manual_seed)|default_rng|RandomState", ln):
                 evs.append("pyrand")
